@@ -15,6 +15,13 @@ G (format matrix, E-grid)
     no dimension (``_g_shape_rule``: header-less text tables without axis; the [axis | data]
     layout with one data column) the shape may come back with dimensions of length one
     dropped - nothing else - and the values are compared in the exported order.
+    MAGNITUDE of the data is a dimension of its own: the whole product is repeated with the
+    real and the complex array multiplied by 1e-6, 1e-10, 1e-14 (thorough: also 1e+10), and a
+    complex flavour whose imaginary parts are nine decades below the real parts is part of it.
+    The comparison is relative to the size of every single entry AND of its real and imaginary
+    part separately (all formats are lossless; text is written with 18 digits), never to an
+    absolute number, so a decision of the import that depends on the absolute size of the
+    numbers ("imaginary part close to zero", "value close to zero") is seen.
 
 H (parcels, all short histories)
     ``[enter ctx]* [touch] save [exit|enter ctx]* load [read under ctx']`` with ctx in
@@ -27,6 +34,18 @@ H (parcels, all short histories)
     observable data of the twin, read at the same point of the history, is the expected
     value of the observable data of the loaded object (class R).  Observables are read through
     public accessors only (``data`` properties, getters), never from ``_data``.
+
+D (directories, all short histories of ``savedir`` into ONE directory)
+    every sequence of up to 3 (thorough: 5) ``savedir`` calls whose tag is drawn from
+    {automatic, 1, 2, 3, "s"} (user tags not repeated within one history) x 16 casts (which
+    class is saved at which step; every class appears at every step) x {a fresh object per
+    step, one and the same instance at every step}; ``loaddir`` after EVERY call.  Oracle: a
+    model of the table that claims only what the two methods promise - a call with tag t
+    sets entry t and leaves every other entry alone; a call without a tag ADDS an entry
+    (under a tag of the implementation's choice that was not in use) and leaves every other
+    entry alone; every entry loads back as an object of the saved class with the observable
+    data of a never-saved twin (class R).  Nothing is claimed about the value of an
+    automatic tag.
 
 Everything the check writes goes to a fresh ``tempfile.mkdtemp()`` directory which is removed
 before the case returns.
@@ -45,6 +64,10 @@ LEVEL = "model_checking"
 TOL = 1e-10                     # class R: |delta| <= TOL * max|entry|
 
 EXTS = [".dat", ".txt", ".npy", ".npz", ".mat"]
+# magnitude of the exported data: powers of ten the order-one arrays are multiplied with, a
+# complete sub-product over class x extension x shape x axis for the flavours below
+G_SCALES = {"quick": [-6, -10, -14], "thorough": [-6, -10, -14, 10]}
+G_SCALED_FLAVOURS = ("real", "complex")
 
 
 def _mkdtemp(prefix):
@@ -80,9 +103,17 @@ def _gdata(flavour, shape):
         a = re + 0j
     elif flavour == "complex-pure-imag":
         a = 1j * im
+    elif flavour == "complex-small-imag":   # imaginary parts nine decades below the real ones
+        a = re + 1e-9j * im
     else:
         raise isolation.HarnessError("flavour " + flavour)
     return a.reshape(shape)
+
+
+def _gscale(case):
+    """Factor all exported DATA (not the axis) are multiplied with: 10**scale10; cases
+    without the entry are the order-one data."""
+    return 10.0 ** int(case.get("scale10", 0))
 
 
 def _herm(flavour, nt, d):
@@ -93,7 +124,8 @@ def _herm(flavour, nt, d):
             for j in range(i, d):
                 v = 0.1 * (t + 1) + i - 0.37 * j + 0.05 * t * j
                 if i != j and not flavour.startswith("real"):
-                    v = v + 1j * (0.2 * t - 0.3 * i + j + 0.11)
+                    v = v + 1j * (0.2 * t - 0.3 * i + j + 0.11) \
+                        * (1e-9 if flavour == "complex-small-imag" else 1.0)
                 if flavour == "complex-zero-imag":
                     v = v.real + 0j
                 if flavour == "real-wide":
@@ -201,7 +233,7 @@ def _g_roundtrip(case, tmp):
         fa = qr.FrequencyAxis(0.1, N, 0.01)
         fa2 = qr.FrequencyAxis(0.5, N, 0.02)
     if cls == "DFunction":
-        data = _gdata(flav, shape)
+        data = _gdata(flav, shape) * _gscale(case)
         o = qr.DFunction(ta, data.copy())
         o.save_data(fn, with_axis=ta if axis else None)
         ax_out = ta.data.copy()
@@ -211,7 +243,7 @@ def _g_roundtrip(case, tmp):
     if cls == "AbsSpectrum":
         if not axis:
             raise isolation.HarnessError("AbsSpectrum has no axis-less export")
-        data = _gdata(flav, shape)
+        data = _gdata(flav, shape) * _gscale(case)
         o = qr.AbsSpectrum(axis=fa, data=data.copy())
         o.save_data(fn)
         ax_out = fa.data.copy()
@@ -219,7 +251,7 @@ def _g_roundtrip(case, tmp):
         o2.load_data(fn)
         return data, o2.data, ax_out, o2.axis.data
     if cls == "TwoDResponse":
-        data = _gdata(flav, shape)
+        data = _gdata(flav, shape) * _gscale(case)
         o = qr.TwoDResponse()
         o.set_axis_1(fa)
         o.set_axis_3(fa)
@@ -237,7 +269,8 @@ def _g_roundtrip(case, tmp):
         from quantarhei.qm.propagators.dmevolution import DensityMatrixEvolution
         if axis:
             raise isolation.HarnessError("MatrixData.save_data has no axis argument")
-        data = _herm(flav, shape[0], shape[1]) if len(shape) == 3 else _gdata(flav, shape)
+        data = (_herm(flav, shape[0], shape[1]) if len(shape) == 3
+                else _gdata(flav, shape)) * _gscale(case)
         o = DensityMatrixEvolution(ta)
         o.data = data.copy()
         o.save_data(fn)
@@ -263,16 +296,25 @@ def _digest(x):
 
 
 def _entrywise(got, ref):
-    """all |got-ref| <= TOL*|ref| entry by entry; returns (ok, worst relative deviation)."""
+    """all |got-ref| <= TOL*|ref| entry by entry, and the same for the real and for the
+    imaginary parts separately (an imaginary part far below the real one is a value of its
+    own); returns (ok, worst relative deviation of an entry or of one of its parts)."""
     got = numpy.asarray(got)
     if not (numpy.all(numpy.isfinite(got)) and numpy.all(numpy.isfinite(ref))):
         return False, float("inf")
-    d = numpy.abs(got - ref)
-    a = numpy.abs(ref)
-    ok = bool(numpy.all(d <= TOL * a))
-    rel = d / numpy.where(a > 0, a, 1.0)
-    rel = numpy.where((a == 0) & (d > 0), numpy.inf, rel)
-    return ok, float(numpy.max(rel)) if rel.size else 0.0
+    ok, worst = True, 0.0
+    parts = [(got, ref)]
+    if numpy.iscomplexobj(got) or numpy.iscomplexobj(ref):
+        parts += [(numpy.real(got), numpy.real(ref)), (numpy.imag(got), numpy.imag(ref))]
+    for g, r in parts:
+        d = numpy.abs(g - r)
+        a = numpy.abs(r)
+        ok = ok and bool(numpy.all(d <= TOL * a))
+        rel = d / numpy.where(a > 0, a, 1.0)
+        rel = numpy.where((a == 0) & (d > 0), numpy.inf, rel)
+        if rel.size:
+            worst = max(worst, float(numpy.max(rel)))
+    return ok, worst
 
 
 def eval_g(case):
@@ -284,6 +326,8 @@ def eval_g(case):
     rule = _g_shape_rule(case)
     if case.get("ctx"):
         cell += "/inside-energy_units(%s)" % case["ctx"]
+    if case.get("scale10"):
+        cell += "/data-scale=1e%+03d" % int(case["scale10"])
     tmp = _mkdtemp("c18g_")
     try:
         try:
@@ -364,12 +408,14 @@ def eval_g(case):
 def cases_g(tier):
     # N and M start at ONE: (1,), (1,M), (N,1), (1,1) are part of the product
     if tier == "quick":
-        Ns, Ms, flav = [1, 2, 5], [1, 2, 3], ["real", "complex"]
+        Ns, Ms, flav = [1, 2, 5], [1, 2, 3], ["real", "complex", "complex-small-imag"]
         herm = [(1, 1), (2, 1), (1, 2), (3, 2), (2, 3)]
     else:
         Ns, Ms = [1, 2, 3, 5, 8, 16], [1, 2, 3, 4, 7]
-        flav = ["real", "complex", "real-wide", "complex-zero-imag", "complex-pure-imag"]
+        flav = ["real", "complex", "real-wide", "complex-zero-imag", "complex-pure-imag",
+                "complex-small-imag"]
         herm = [(nt, d) for nt in (1, 2, 3, 5, 8) for d in (1, 2, 3, 4)]
+    scales = G_SCALES[tier]
     shapes = [[n] for n in Ns] + [[n, m] for n in Ns for m in Ms]
     # the sub-product inside a units context (unit conversion of the exported axis)
     ctx_shapes = [[n] for n in Ns if n > 1][:2] + [[2, 2]]
@@ -383,6 +429,10 @@ def cases_g(tier):
                             continue        # AbsSpectrum.save_data(filename): always with axis
                         cs.append({"part": "G", "cls": cls, "ext": ext, "dtype": f,
                                    "shape": shape, "axis": axis})
+                        if f in G_SCALED_FLAVOURS:
+                            for e in scales:
+                                cs.append({"part": "G", "cls": cls, "ext": ext, "dtype": f,
+                                           "shape": shape, "axis": axis, "scale10": e})
                         if cls in ("AbsSpectrum", "TwoDResponse") and axis and \
                                 f in ("real", "complex") and shape in ctx_shapes:
                             for ctx in (["1/cm"] if tier == "quick" else ["1/cm", "eV", "nm"]):
@@ -395,6 +445,10 @@ def cases_g(tier):
                     continue                # not a Hermitian content
                 cs.append({"part": "G", "cls": "DensityMatrixEvolution", "ext": ext,
                            "dtype": f, "shape": shape, "axis": False})
+                if f in G_SCALED_FLAVOURS:
+                    for e in scales:
+                        cs.append({"part": "G", "cls": "DensityMatrixEvolution", "ext": ext,
+                                   "dtype": f, "shape": shape, "axis": False, "scale10": e})
     cs.sort(key=lambda c: (int(numpy.prod(c["shape"])), len(c["shape"])))
     return cs
 
@@ -1000,9 +1054,192 @@ def cases_h(tier):
 
 
 # ==========================================================================
+# D: histories of savedir calls into one directory
+# ==========================================================================
+D_TAGS = ["auto", 1, 2, 3, "s"]         # "auto": savedir called without a tag
+D_OBJECTS = ["distinct", "one"]         # a fresh object per step / the same instance every step
+D_STRIDE = 5                            # coprime with len(CLASSES): step i saves class cast+5i
+
+
+def d_bounds(tier):
+    return 3 if tier == "quick" else 5
+
+
+def _d_step_class(case, i):
+    if case["objects"] == "one":
+        return CLASSES[case["cast"] % len(CLASSES)], 0
+    return CLASSES[(case["cast"] + D_STRIDE * i) % len(CLASSES)], i
+
+
+def _d_state(keys):
+    """Class of the table a call finds, from the tags in the order the directory lists them
+    (what `loaddir` returned after the previous call)."""
+    if not keys:
+        return "empty-directory"
+    last = keys[-1]
+    if isinstance(last, str):
+        return "last-tag-is-string"
+    ints = [k for k in keys if isinstance(k, int)]
+    return "last-tag-is-largest-integer" if last == max(ints) else "last-tag-integer-not-largest"
+
+
+def _d_tagkind(t):
+    return "automatic-tag" if t == "auto" else \
+        ("string-tag" if isinstance(t, str) else "integer-tag")
+
+
+def _obs_diff(exp, got):
+    """First observable of `got` that differs from `exp` (class R): (name, err) or None."""
+    for name, e in exp.items():
+        if name not in got:
+            return name, "missing"
+        g = got[name]
+        if isinstance(e, (str, bool)) or e is None:
+            if e != g:
+                return name, "%r instead of %r" % (g, e)
+        else:
+            same, err = approx(g, e, TOL)
+            if not same:
+                return name, err
+    return None
+
+
+def eval_d(case):
+    qr = isolation.qr()
+    isolation.reset_manager()
+    tags = case["tags"]
+    hist = "savedir history tags=%r, objects=%s, cast=%d" % (tags, case["objects"], case["cast"])
+    viol = []
+    tmp = _mkdtemp("c18d_")
+    dn = os.path.join(tmp, "store")
+    loader = qr.TimeAxis(0.0, 2, 1.0)
+    model = {}              # tag -> (class, variant): what every entry has to hold
+    keys = []               # tags as listed by the last loaddir
+    twins = {}
+
+    def expected(cls, v):
+        if (cls, v) not in twins:
+            tw = _build(cls, v)[0]
+            twins[(cls, v)] = (type(tw).__module__ + "." + type(tw).__name__,
+                               _freeze(observe(cls, tw)))
+        return twins[(cls, v)]
+
+    def lib_call(stage, f, i, t, state):
+        try:
+            return True, f()
+        except isolation.HarnessError:
+            raise
+        except Exception as e:
+            where = _lib_frame(e)
+            if where is None:
+                raise isolation.HarnessError("D harness failure at %s: %r in %r"
+                                             % (stage, e, case))
+            viol.append(("dir/%s-raises:%s/%s/%s" % (stage, type(e).__name__, _d_tagkind(t),
+                                                     state),
+                         "%s: call no. %d (%s) -> %s raised %s: %s [%s]; directory held "
+                         "tags %r" % (hist, i + 1, _d_tagkind(t), stage, type(e).__name__,
+                                      str(e)[:160], where, keys), {"where": where}))
+            return False, None
+
+    one = None
+    try:
+        for i, t in enumerate(tags):
+            cls, v = _d_step_class(case, i)
+            if case["objects"] == "one":
+                if one is None:
+                    one = _build(cls, v)[0]
+                obj = one
+            else:
+                obj = _build(cls, v)[0]
+            state, kind = _d_state(keys), _d_tagkind(t)
+            ok, _ = lib_call("savedir", (lambda: obj.savedir(dn)) if t == "auto"
+                             else (lambda: obj.savedir(dn, tag=t)), i, t, state)
+            if not ok:
+                break
+            ok, loaded = lib_call("loaddir", lambda: loader.loaddir(dn), i, t, state)
+            if not ok:
+                break
+            now = list(loaded.keys())
+            if t == "auto":
+                new = [k for k in now if k not in model]
+                gone = [k for k in model if k not in now]
+                if len(new) != 1 or gone or len(now) != len(model) + 1:
+                    if not new and not gone and len(now) == len(model):
+                        viol.append(("dir/automatic-tag-displaces-entry/" + state,
+                                     "%s: call no. %d without a tag added no entry: the "
+                                     "directory lists %r as before, the object went under a "
+                                     "tag already in use" % (hist, i + 1, now),
+                                     {"before": repr(keys), "after": repr(now)}))
+                    else:
+                        viol.append(("dir/tags-differ/%s/%s" % (kind, state),
+                                     "%s: call no. %d without a tag: directory listed %r "
+                                     "before and %r after (expected: the same tags and one "
+                                     "new one)" % (hist, i + 1, keys, now),
+                                     {"before": repr(keys), "after": repr(now)}))
+                    break
+                tag = new[0]
+            else:
+                tag = t
+                want = list(model) + ([t] if t not in model else [])
+                if sorted(map(repr, now)) != sorted(map(repr, want)):
+                    viol.append(("dir/tags-differ/%s/%s" % (kind, state),
+                                 "%s: call no. %d with tag %r: directory listed %r before "
+                                 "and %r after (expected %r)" % (hist, i + 1, t, keys, now, want),
+                                 {"before": repr(keys), "after": repr(now)}))
+                    break
+            model[tag] = (cls, v)
+            bad = None
+            for k in now:
+                kcls, kv = model[k]
+                tname, exp = expected(kcls, kv)
+                o = loaded[k]
+                where = "entry-just-saved" if k == tag else "earlier-entry"
+                if type(o).__module__ + "." + type(o).__name__ != tname:
+                    bad = ("dir/entry-type-differs/%s/%s/%s" % (where, kind, state),
+                           "%s: after call no. %d the object under tag %r is a %s, a %s was "
+                           "saved under it" % (hist, i + 1, k, type(o).__name__, tname))
+                    break
+                diff = _obs_diff(exp, _freeze(observe(kcls, o)))
+                if diff is not None:
+                    bad = ("dir/entry-values-differ/%s/%s/%s" % (where, kcls, diff[0]),
+                           "%s: after call no. %d observable %s of the %s under tag %r differs "
+                           "from the never-saved twin (%s)" % (hist, i + 1, diff[0], kcls, k,
+                                                              diff[1]))
+                    break
+            if bad is not None:
+                viol.append((bad[0], bad[1], {"tags_listed": repr(now)}))
+                break
+            keys = now
+    finally:
+        shutil.rmtree(tmp, ignore_errors=True)
+        isolation.reset_manager()
+    return {"nontrivial": len(tags) > 1,
+            "outcome": ["ok" if not viol else "bad", repr(keys), case["objects"],
+                        [_d_step_class(case, i)[0] for i in range(len(tags))][:2]],
+            "violations": viol}
+
+
+def cases_d(tier):
+    depth = d_bounds(tier)
+    cs = []
+    for n in range(1, depth + 1):
+        for seq in itertools.product(D_TAGS, repeat=n):
+            users = [repr(t) for t in seq if t != "auto"]
+            if len(set(users)) != len(users):
+                continue            # a user tag is given once per history
+            for objects in D_OBJECTS:
+                for cast in range(len(CLASSES)):
+                    cs.append({"part": "D", "tags": list(seq), "objects": objects,
+                               "cast": cast})
+    return cs
+
+
+# ==========================================================================
 def eval_case(case):
     if case["part"] == "G":
         return eval_g(case)
+    if case["part"] == "D":
+        return eval_d(case)
     return eval_h(case)
 
 
@@ -1011,7 +1248,7 @@ def replay(case):
 
 
 def cases(tier):
-    return cases_g(tier) + cases_h(tier)
+    return cases_g(tier) + cases_d(tier) + cases_h(tier)
 
 
 def _collect(run, infos):
@@ -1038,7 +1275,12 @@ def run(run):
                 "more context | after leaving all) x operator class of the context operators "
                 "{real symmetric, complex Hermitian} (histories with a basis context) x class "
                 "x matrix kind {real, complex} (basis managed matrix classes) x route; "
-                "non-trivial = at least one context anywhere in the history" % (maxdepth, lmid))
+                "non-trivial = at least one context anywhere in the history; D: every "
+                "sequence of <=%d savedir calls into one directory, tag of each call in "
+                "{automatic, 1, 2, 3, 's'} (user tags not repeated) x 16 casts of classes x "
+                "{fresh object per call, one instance}, loaddir after every call; "
+                "non-trivial = at least two calls"
+                % (maxdepth, lmid, d_bounds(run.tier)))
     run.assumptions = [
         "expected values of H come from a twin world: the same history on identically built "
         "objects that are never saved (context transparency itself is C04/C05)",
@@ -1047,6 +1289,13 @@ def run(run):
         "worlds with complex Hermitian context operators do not compare the transition dipole "
         "moment array of molecules and aggregates: the class stores it in a real array which "
         "cannot hold the operator in a complex basis (lossy with or without saving)",
+        "G values: compared per entry and per real/imaginary part relative to the size of "
+        "that very number (all formats are lossless), for data multiplied by 1e-6 ... 1e-14 "
+        "as for data of the order one",
+        "D claims only: savedir(tag=t) sets entry t, savedir() adds an entry under a tag that "
+        "was not in use, both leave all other entries alone, loaddir returns every entry with "
+        "the class and the observable data of a never-saved twin; nothing is claimed about "
+        "the value of an automatic tag, nor about a user tag given twice in one history",
         "G shape rule: where the layout of the file cannot tell a dimension of length one "
         "from no dimension (header-less .dat/.txt tables without axis; [axis | data] layout "
         "with one data column) the loaded shape may be the exported one with unit dimensions "
@@ -1054,11 +1303,16 @@ def run(run):
         "everywhere else the shape must be exact"]
     run.bounds = {"G": {"extensions": EXTS,
                         "classes": ["DFunction", "AbsSpectrum", "TwoDResponse",
-                                    "DensityMatrixEvolution"]},
+                                    "DensityMatrixEvolution"],
+                        "data_scale_powers_of_ten": [0] + G_SCALES[run.tier],
+                        "scaled_flavours": list(G_SCALED_FLAVOURS)},
+                  "D": {"tags": D_TAGS, "max_calls": d_bounds(run.tier),
+                        "objects": D_OBJECTS, "casts": len(CLASSES)},
                   "H": {"contexts": tokens, "max_nesting": maxdepth, "max_mid_ops": lmid,
                         "classes": CLASSES, "routes": ROUTES,
                         "context_operator_class": KOPS, "matrix_kind": DATA_KINDS}}
     ig = run_grid(run, cases_g(run.tier), eval_case, section="G-formats")
+    run_grid(run, cases_d(run.tier), eval_case, section="D-directories")
     ih = run_grid(run, cases_h(run.tier), eval_case, section="H-parcels")
     worst, unsup, twin, squeezed = _collect(run, ig + ih)
     run.note(worst_relative_deviation=worst, cells_not_offered_by_class=unsup,
